@@ -109,6 +109,10 @@ func (this *NativeService) Invoke() (interface{}, error) {
 	}
 	result, err := service(this)
 	if err != nil {
+		this.PopContext()
+		this.notifications = notifications
+		this.crossHashes = hashes
+		this.input = args
 		return result, fmt.Errorf("[Invoke] Native serivce function execute error:%s", err)
 	}
 	this.PopContext()
